@@ -411,6 +411,13 @@ CircPremise(scene, ch, edges) ==
 \* right-hand side of Ampere's law in amperes
 ExpCirc(scene, ch, edges) == SumSeq([i \in DOMAIN scene |-> CurrentOf(scene[i]) * Lk(scene[i], ch, edges)])
 
+(* "Far" instances: the documentation warns that accuracy "can be a problem at large distances"; DESIGN 3.4 therefore uses   *)
+(* 1e-5 instead of the near tolerance for observers farther than 10 sizes from the source.  An instance is far iff EVERY     *)
+(* source is separated from the cell / loop by more than 10 times its own largest extent.                                   *)
+BodyMaxExt(s) == LET b == LocalBox(s) IN Max2(1, SetMax({b.hi[k] - b.lo[k] : k \in 1..3}))
+SrcFar(s, box) == LET sb == SrcBox(s) d == 10 * BodyMaxExt(s) IN \E k \in 1..3 : box.lo[k] - sb.hi[k] > d \/ sb.lo[k] - box.hi[k] > d
+AllFar(scene, ch, pts) == \A i \in DOMAIN scene : SrcFar(scene[i], RegionBox(ch, pts))
+
 (* joint rigid lattice motion g = (Q, t) of the whole instance: x -> Q x + t                      *)
 MoveSrc(Q, t, s) == [s EXCEPT !.R = MulMM(Q, s.R), !.p = Add3(MulMV(Q, s.p), t)]
 MoveChart(Q, t, ch) == [ch EXCEPT !.R = MulMM(Q, ch.R), !.p = Add3(MulMV(Q, ch.p), t)]
@@ -424,4 +431,79 @@ RectLoop(k, c, alo, ahi, blo, bhi) ==
   IN <<<<P(alo, blo), P(ahi, blo)>>, <<P(ahi, blo), P(ahi, bhi)>>, <<P(ahi, bhi), P(alo, bhi)>>, <<P(alo, bhi), P(alo, blo)>>>>
 \* coordinate rectangle in any chart (same construction: edges vary one coordinate each)
 PolyLoop(V) == LET n == Len(V) IN [i \in 1..n |-> <<V[i], V[(i % n) + 1]>>]
+
+(* ------------------------------------------------------------------------ point laws (C01 only) *)
+(* Closed forms that ARE first principles, and the far-field limit, on integer offsets r = obs - p with integer norm rho: *)
+(*     4 pi rho^5 H = 3 r (m.r) - m rho^2 =: N(m, r)          (point dipole of moment m; exact integer vector)            *)
+(* kind "dipole"     : Dipole                      w = 4 pi rho^5 lam^3 H            = N(R m, r)        exact               *)
+(* kind "sphere_out" : Sphere, rho > d/2           w = 3 rho^5 B / (d/2)^3           = N(R J, r)        exact               *)
+(* kind "sphere_in"  : Sphere, rho < d/2           w = 3 B = 2 R J ;  3 mu0 H = -R J                    exact               *)
+(* kind "far"        : every class, rho >= 100 sizes   w = 4 pi rho^5 B / V (magnets), 4 pi rho^5 lam H / (2 A) (currents)  *)
+(*                                                   = N(moment direction, r)  up to O((size/rho)^2) (O(size/rho) if the    *)
+(*                     reference point p is not the centre of symmetry of the body)                                          *)
+(* The harness logs w = F * rho^5 * num/den * pi^pik * lam^lamexp * mu0^muexp (unit conversion only, all factors from here)  *)
+(* quantized in units of 1e-8 of the gross scale G = max_i (3 |r_i| |m.r| + |m_i| rho^2), which is also computed here.       *)
+DipN(m, r) == LET mr == Dot3(m, r) r2 == Norm2(r) IN [i \in 1..3 |-> 3 * r[i] * mr - m[i] * r2]
+DipG(m, r) == LET mr == Abs(Dot3(m, r)) r2 == Norm2(r) IN Max2(1, SetMax({3 * Abs(r[i]) * mr + Abs(m[i]) * r2 : i \in 1..3}))
+PolyArea2(v) == LET RECURSIVE S(_)
+                    S(i) == IF i >= Len(v) THEN Zero3 ELSE Add3(Cross3(v[i], v[i + 1]), S(i + 1))
+                IN S(1)                                             \* twice the vector area of a closed polygon
+\* moment direction (integer vector, global frame) and the rational * pi^pik that turns the field into N(m, r) / rho^5
+Moment(s) ==
+  CASE s.cls = "Circle" -> MulMV(s.R, <<0, 0, s.exc[1]>>)
+    [] s.cls = "Polyline" -> MulMV(s.R, Scale3(s.exc[1], PolyArea2(s.verts)))
+    [] OTHER -> MulMV(s.R, s.exc)
+TetDet(s) == Abs(Det3(Sub3(s.verts[2], s.verts[1]), Sub3(s.verts[3], s.verts[1]), Sub3(s.verts[4], s.verts[1])))
+\* <<num, den, pik, lamexp>>:  4 pi / V  resp. 4 pi / (2 A)  resp. 4 pi
+FarNorm(s) ==
+  CASE s.cls \in {"Cuboid", "TriangularMesh"} -> <<4, s.dim[1] * s.dim[2] * s.dim[3], 1, 0>>
+    [] s.cls = "Cylinder" -> <<16, s.dim[1] * s.dim[1] * s.dim[2], 0, 0>>                      \* V = pi d^2 h / 4
+    [] s.cls = "CylinderSegment" -> <<96, (s.dim[5] - s.dim[4]) * (s.dim[2] * s.dim[2] - s.dim[1] * s.dim[1]) * s.dim[3], 0, 0>>   \* V = (f2-f1) pi/12 (r2^2-r1^2) h / 2
+    [] s.cls = "Sphere" -> <<24, s.dim[1] * s.dim[1] * s.dim[1], 0, 0>>                          \* V = pi d^3 / 6
+    [] s.cls = "Tetrahedron" -> <<24, TetDet(s), 1, 0>>                                          \* V = |det| / 6
+    [] s.cls = "Dipole" -> <<4, 1, 1, 3>>
+    [] s.cls = "Circle" -> <<16, s.dim[1] * s.dim[1], 0, 1>>                                     \* A = pi d^2 / 4
+    [] s.cls = "Polyline" -> <<8, 1, 1, 1>>                                                      \* moment = I * (vector area) = I * PolyArea2 / 2
+Centred(s) == s.cls \in {"Cuboid", "TriangularMesh", "Cylinder", "Sphere", "Dipole", "Circle"}
+              \/ (s.cls = "CylinderSegment" /\ s.dim[5] - s.dim[4] = 24)
+\* pt == [kind, src, obs, field, rho]
+PtR(pt) == Sub3(pt.obs, pt.src.p)
+PointPremise(pt) ==
+  LET m == Moment(pt.src)
+      mm == Max2(1, SetMax({Abs(m[i]) : i \in 1..3}))
+      rr == SetMax({Abs(PtR(pt)[i]) : i \in 1..3})
+  IN /\ WellFormedSrc(pt.src) /\ pt.field \in {"B", "H"}
+     /\ rr <= 4000 /\ pt.rho > 0 /\ pt.rho <= 7000 /\ mm <= 200 /\ 12 * rr * rr <= 190000000 \div mm      \* all arithmetic below fits 32 bits (G < 2e8)
+     /\ pt.rho * pt.rho = Norm2(PtR(pt))
+     /\ CASE pt.kind = "dipole" -> pt.src.cls = "Dipole"
+          [] pt.kind = "sphere_out" -> pt.src.cls = "Sphere" /\ 2 * pt.rho > pt.src.dim[1]
+          [] pt.kind = "sphere_in" -> pt.src.cls = "Sphere" /\ 2 * pt.rho < pt.src.dim[1]
+          [] pt.kind = "far" -> pt.src.cls \in Classes \ {"Triangle"} /\ pt.rho >= 100 * BodyMaxExt(pt.src)
+          [] OTHER -> FALSE
+\* unit conversion applied by the harness: <<rho5 (1 = use rho^5, 0 = no), num, den, pik, lamexp, muexp>>
+PointNorm(pt) ==
+  LET s == pt.src
+      cur == s.cls \in Currents \/ s.cls = "Dipole"                 \* these return H natively: B needs 1/mu0; magnets: H needs mu0
+      mu == IF cur THEN (IF pt.field = "B" THEN -1 ELSE 0) ELSE (IF pt.field = "H" THEN 1 ELSE 0)
+      hr == s.dim[1] \div 2
+  IN CASE pt.kind = "sphere_in" -> <<0, 3, 1, 0, 0, mu>>
+       [] pt.kind = "sphere_out" -> <<1, 3, hr * hr * hr, 0, 0, mu>>
+       [] OTHER -> LET f == FarNorm(s) IN <<1, f[1], f[2], f[3], f[4], mu>>
+PointExpected(pt) ==
+  LET m == Moment(pt.src) IN
+  IF pt.kind = "sphere_in" THEN (IF pt.field = "B" THEN Scale3(2, m) ELSE Neg3(m)) ELSE DipN(m, PtR(pt))
+PointGross(pt) == LET m == Moment(pt.src) IN
+  IF pt.kind = "sphere_in" THEN Max2(1, 2 * SetMax({Abs(m[i]) : i \in 1..3})) ELSE DipG(m, PtR(pt))
+\* round(n * 1e8 / g) for |n| <= g < 2e8 by long division (32-bit safe)
+RECURSIVE LongDiv(_, _, _, _)
+LongDiv(rem, g, acc, k) == IF k = 0 THEN (IF 2 * rem >= g THEN acc + 1 ELSE acc)
+                           ELSE LongDiv((rem * 10) % g, g, acc * 10 + (rem * 10) \div g, k - 1)
+Quant8(n, g) == IF n >= 0 THEN LongDiv(n % g, g, n \div g, 8) ELSE -LongDiv((-n) % g, g, (-n) \div g, 8)
+TolClosed8 == 2                  \* exact closed forms: 2e-8 of the gross scale (quantization + rounding)
+\* far field: 1e-7 + truncation of the multipole series: (ext/rho)^2 for bodies centred at p, 2 ext/rho otherwise (ext = largest extent)
+PointTol8(pt) ==
+  IF pt.kind # "far" THEN TolClosed8
+  ELSE LET e == BodyMaxExt(pt.src)
+           x == (e * 10000) \div pt.rho + 1                          \* ext/rho in units of 1e-4 (<= 100)
+       IN IF Centred(pt.src) THEN 10 + x * x ELSE 10 + 2 * x * 10000
 =============================================================================
